@@ -48,6 +48,15 @@ RULE += "; option stream (n/40 more cases, own generator, OPTIONS_AUDIT.md): pre
 CIDS = ["A", "B", "C", "D", "E"]
 
 
+# contest identifiers that are falsy, numeric-looking, differ only in case / blanks, or contain one another (round 9)
+CID_FAMILIES = [["0", "", "a", "A", "aa"], ["1", "01", "10", " 1", "1.0"]]
+
+
+def _cids(rng, ncon):
+    fam = CIDS if not rng.chance(0.15) else rng.choice(CID_FAMILIES)
+    return list(fam[:ncon])
+
+
 # ------------------------------------------------------------------------------------------------
 # building real objects
 
@@ -71,14 +80,21 @@ def _K(n):
 _SCALE = [1, "int"]
 
 
+# kind "shift" (round 9): the numbers are the integers k + D -- D = 2**63 - 3 (64-bit hashes straddling the int64 range:
+# numpy would promote a mixed list to float64), D = 2**200 (256-bit hashes, beyond float precision: neighbours are equal
+# as floats) or D < 0 (signed hashes: every number negative).  Sample numbers are sort keys; only their order counts.
 def _num(k):
     D, kind = _SCALE
+    if kind == "shift":
+        return k + D if (isinstance(k, int) and not isinstance(k, bool)) else k
     if D == 1 or not isinstance(k, int) or isinstance(k, bool):
         return k
     return Fraction(k, D) if kind == "fraction" else k / D
 
 
 def _unnum(t):
+    if _SCALE[1] == "shift":
+        return int(t) - _SCALE[0]
     return int(Fraction(t) * _SCALE[0])
 
 
@@ -635,7 +651,7 @@ def _size_path(rng, avail, nr):
 def gen_rounds(rng, n=None, ncon=None, nr=None, malformed=None):
     n = n or rng.choice([1, 2, 3, 4, 5, 6, 8, 10, 15, 25, 40])
     ncon = ncon or rng.randint(1, 5)
-    cids = CIDS[:ncon]
+    cids = _cids(rng, ncon)
     if rng.chance(0.3):
         cids = list(cids); rng.shuffle(cids)
     nr = nr or rng.randint(1, 4)
@@ -663,6 +679,9 @@ def _with_scale(rng, case):
     """fractional sample numbers k/D (floats or Fractions) in 1 case in 5 whose numbers are small"""
     if all(isinstance(cd["num"], int) and 0 <= cd["num"] < 2 ** 50 for cd in case["cards"]) and rng.chance(0.2):
         case["num_scale"] = [rng.choice([2, 4, 64, 1024, 2 ** 20]), rng.choice(["float", "float", "fraction"])]
+    elif all(isinstance(cd["num"], int) and 0 <= cd["num"] < 2 ** 50 for cd in case["cards"]) and rng.chance(0.2):
+        top = max([cd["num"] for cd in case["cards"]] + [1])
+        case["num_scale"] = [rng.choice([2 ** 63 - 1 - top // 2, 2 ** 63 - 3, 2 ** 200, -(top // 2) - 1, -top - 7, -10 ** 9]), "shift"]
     return case
 
 
@@ -716,7 +735,7 @@ def gen_exhaustive(rng, maxn):
 def gen_cs(rng):
     n = rng.choice([1, 2, 3, 5, 8, 12])
     ncon = rng.randint(1, 4)
-    cids = CIDS[:ncon]
+    cids = _cids(rng, ncon)
     cards = _cards(rng, n, cids, rng.choice(["small", "pos", "ties", "close"]))
     cons = []
     for c in cids:
@@ -750,7 +769,7 @@ def gen_renumber(rng):
     'sampled': True (a reloaded list) and stale numbers"""
     n = rng.choice([1, 2, 3, 4, 5, 6, 8, 12, 20])
     ncon = rng.randint(1, 3)
-    cids = CIDS[:ncon]
+    cids = _cids(rng, ncon)
     cards = _cards(rng, n, cids, "small")
     via = rng.choice(["ctor", "from_dict", "from_dict"])
     preset = rng.choice(["none", "none", "some", "all"])
